@@ -239,3 +239,5 @@ for n in ["send_retry_first_single_att", "send_retry_first_frag_att", "send_retr
 # (symex 91 s, solver 486 s): the receive side is decided on the concrete plans recv_short_* + the window M-queries.
 
 H("c16_drop_undecoded_fd0", ["C16", "C03", "C11"], sym="payload bytes symbolic; one unconverted channel attachment whose descriptor number is 0", bounds="unwind 19")
+
+HARNESSES["send_many_64_frag"]["props"].append("C02")   # 65 descriptors on the header packet = follow-ups read from a user channel
